@@ -330,6 +330,30 @@ pub fn gen_rule(d: &Data, r: &mut Rng) -> String {
     if !d.doc_rules.is_empty() && r.chance(1, 8) {
         return r.pick(&d.doc_rules).clone();
     }
+    if r.chance(1, 12) {
+        // contexts that read stress or tone to the LEFT of the target, and captures re-used inside
+        // output structures (two or three captures at once)
+        return r
+            .pick(
+                &[
+                    "t > d / [+stress] _",
+                    "C > [+voice] / V:[+stress]_",
+                    "% > [tone: 35] / %:[tone: 51] _",
+                    "%=1 > * / 1 _",
+                    "V > [+long] / %:[+stress] _",
+                    "s > z / %:[-stress]_",
+                    "V > [-long] / [+stress]C_",
+                    "* > <1 2> / #_C=1 V=2",
+                    "<C=1 V=2> > <2 1>",
+                    "* > <2 a> / #_C=1 V=2",
+                    "* > <1 2> / _C=1 V=2#",
+                    "<C=1 V=2 C=3> > <3 2 1>",
+                    "C=1 V=2 > <2 1>a",
+                    "* > <1 a 2> / #_C=1 V C=2",
+                ][..],
+            )
+            .to_string();
+    }
     if r.chance(1, 16) {
         // syllable-boundary and tone rules: joining syllables merges their tones
         return r.pick(&["$ > * / V_V", "$ > * / _C#", "% > [tone: 33]", "%:[tone: 214] > [tone:35] / _%:[tone: 214]", "V > [tone: 35], [tone: 51] / _ʔ, _s", "$ > * / V_"][..]).to_string();
@@ -485,6 +509,22 @@ pub fn gen_call(d: &Data, r: &mut Rng) -> Call {
         if r.chance(1, 6) {
             let w = r.pick(&words).clone();
             words.push(w);
+        }
+        if r.chance(1, 3) {
+            // the same segments with other prosody: stress added or removed, a tone changed
+            let k = r.below(words.len());
+            let w = words[k].clone();
+            let v = if w.starts_with('ˈ') {
+                w.trim_start_matches('ˈ').to_string()
+            } else if w.chars().any(|c| c.is_ascii_digit()) {
+                w.chars().map(|c| if c.is_ascii_digit() { char::from(b'1' + ((c as u8 - b'0') % 5)) } else { c }).collect()
+            } else {
+                format!("ˈ{w}")
+            };
+            if v != w && !v.is_empty() {
+                let at = r.below(words.len() + 1);
+                words.insert(at, v);
+            }
         }
         if r.chance(1, 3) {
             let k = r.below(words.len());
